@@ -183,6 +183,30 @@ def run_case(case, ctx, mon):
             a.merge(tmp)
             del tmp
         mon.count("pairs_tested_right_after_a_dropped_compatible_temporary")
+        if not compatible(a_cfg, b_cfg):
+            for _ in range(6):
+                tmp = make_maybe_subclass(a_cfg, False)
+                a.merge(tmp)
+                addr = id(tmp)
+                before = state.snapshot(a)
+                del tmp
+                b2 = make_maybe_subclass(b_cfg, False)  # often allocated where the temporary was
+                reused = id(b2) == addr
+                b2.add(b"b2-key", 3)
+                try:
+                    a.merge(b2)
+                    raised = None
+                except TypeError:
+                    raised = "TypeError"
+                except Exception as exc:  # noqa: BLE001
+                    raised = type(exc).__name__
+                mon.check(raised == "TypeError", "incompatible-pair-raises-TypeError", raised=raised, a=a_cfg, b=b_cfg,
+                          how="operand built right after a compatible temporary was merged and dropped", operand_reused_the_temporarys_address=reused)
+                d = state.snap_diff(before, state.snapshot(a))
+                mon.check(not d, "refused-merge-changes-nothing", self_differs_in=d, a=a_cfg, b=b_cfg)
+                if reused:
+                    mon.count("incompatible_operands_at_the_address_of_a_dropped_compatible_temporary")
+                del b2
     b = make_maybe_subclass(b_cfg, case.get("b_sub"))
     for op in case["hist_b"]:
         ops.apply_op(b, op)
@@ -237,6 +261,8 @@ def floors(mon, ctx):
     com = sum(v for k, v in mon.counters.items() if k.startswith("pairs:compatible"))
     mon.floor("incompatible pairs", inc, 200)
     mon.floor("pairs tested right after a dropped compatible temporary", mon.counters["pairs_tested_right_after_a_dropped_compatible_temporary"], 100)
+    mon.floor("incompatible operands allocated at the address of a dropped compatible temporary",
+              mon.counters["incompatible_operands_at_the_address_of_a_dropped_compatible_temporary"], 30)
     mon.floor("operands whose bookkeeping totals wrapped to zero", mon.counters["operands_whose_bookkeeping_wrapped_to_zero"], 50)
     mon.floor("compatible pairs", com, 20)
     for need in ("width", "depth", "max_count", "num_reserved", "kind", "p", "seed", "max_key_len"):
